@@ -26,6 +26,14 @@ var permittedRetainers = map[string]string{
 	"(*fixtures/fx.GoodBOptOut).keep":                                               "fixture: documented opt-out",
 }
 
+// optOutViaConfiguration: retainers that are permitted because the *user* chose them through an option; the permission
+// holds where the choice is honoured — a call through the configured interface value — not where the library picks the
+// non-copying implementation itself (a locally built PacketFactoryNoOp used as a fallback when the copying factory
+// refuses a packet keeps the caller's header and payload although DisableCopy was never given).
+var optOutViaConfiguration = map[string]bool{
+	"(*github.com/pion/interceptor/internal/rtpbuffer.PacketFactoryNoOp).NewPacket": true,
+}
+
 // parseCacheResults: permitted retainers whose result refers to the buffer passed in.
 var parseCacheResults = map[string]bool{
 	"(github.com/pion/interceptor.Attributes).GetRTPHeader":   true,
@@ -377,6 +385,15 @@ func (tc *taintCtx) call(fn *ssa.Function, ci ssa.CallInstruction, tainted map[s
 		}
 		return
 	}
+	if len(taintedIdx) == 0 && parseCacheResults[calleeName(cc)] && val != nil && len(args) > 0 {
+		// the parse cache answers from what it holds, whatever bytes it is given now: attributes that came with the
+		// packet (not a map made here) may carry an inner interceptor's parse of the *caller's* buffer, and that is
+		// what comes back even when a private copy is passed in
+		if _, fresh := p.origin(args[0]).(*ssa.MakeMap); !fresh {
+			mark(val)
+		}
+		return
+	}
 	if len(taintedIdx) == 0 {
 		// closures that captured tainted values and are called / go'd here
 		if mc, ok := cc.Value.(*ssa.MakeClosure); ok && tainted[mc] {
@@ -389,7 +406,7 @@ func (tc *taintCtx) call(fn *ssa.Function, ci ssa.CallInstruction, tainted map[s
 		return
 	}
 	name := calleeName(cc)
-	if _, ok := permittedRetainers[name]; ok {
+	if _, ok := permittedRetainers[name]; ok && (cc.IsInvoke() || !optOutViaConfiguration[name]) {
 		// the parse caches hand back objects that point into the bytes they were given (extension payloads of a
 		// header; raw, application-defined and profile-extension parts of RTCP packets): keeping the attributes map is
 		// the contract, but what comes out of it is still the caller's memory
@@ -413,7 +430,7 @@ func (tc *taintCtx) call(fn *ssa.Function, ci ssa.CallInstruction, tainted map[s
 		if !p.InUniverse(c) || c.Blocks == nil {
 			continue
 		}
-		if _, ok := permittedRetainers[fullFuncName(c)]; ok {
+		if _, ok := permittedRetainers[fullFuncName(c)]; ok && (cc.IsInvoke() || !optOutViaConfiguration[fullFuncName(c)]) {
 			handled = true
 			continue
 		}
